@@ -279,7 +279,9 @@ startpats: Final = {
     "'''": r"(?:[^'\\]|\\(?=\{)|\\.|'(?!''))*?(?=\{(?!\{)){",
     '"""': r'(?:[^"\\]|\\(?=\{)|\\.|"(?!""))*?(?=\{(?!\{)){',
 }
-EndRBrace = r".*?(?=\}(?!\}))}"
+# literal text of a format spec up to a nested replacement field or the closing brace (braces are not doubled here)
+SpecLBrace = r"[^{}]*{"
+SpecRBrace = r"[^{}]*}"
 
 tabsize = 8
 
@@ -468,7 +470,7 @@ def next_statement(state: TokenizerState) -> Generator[TokenInfo, None, bool | N
 
 
 def next_psuedo_matches(state: TokenizerState) -> TokenInfo | None:
-    if state.pos == state.max or state.in_fstring():
+    if state.pos == state.max or state.in_fstring() or state.in_colon():
         return None
     match = state.match(PseudoToken)
     if (not match) or (not match.lastgroup):
@@ -510,7 +512,7 @@ def next_psuedo_matches(state: TokenizerState) -> TokenInfo | None:
                 state.pop_mode((state.lnum, end))
             state.parenlev -= 1
         elif token == ":" and state.in_braces() and state.at_parenlev():
-            state.add_prog(start + 1, end, mode=ModeInColon(state.parenlev), pattern=choice(RBrace=EndRBrace))
+            state.add_prog(start + 1, end, mode=ModeInColon(state.parenlev), pattern=choice(LBrace=SpecLBrace, RBrace=SpecRBrace))
         token_type = Token.OP
     elif match.lastgroup == "End":  # // continuation
         state.continued = True
